@@ -45,6 +45,16 @@ THEOREMS = [
     "VK.pvRound_progress",
     "VK.pvLoop_noFuel",
     "VK.C01_veto_terminates",
+    "VK.topMRun_good",
+    "VK.C01_plurality_partition",
+    "VK.C01_borda_partition",
+    "VK.C01_rating_partition",
+    "VK.C01_condoborda_partition",
+    "VK.finalistStage_spec",
+    "VK.C01_toptwo_partition",
+    "VK.stvRun_head",
+    "VK.Good_lift",
+    "VK.C01_alaska_partition",
 ]
 RULE = ("cases = rule (18 classes) x random valid profile (1-6 candidates incl. zero-vote ones, 0-10 ballots, partial "
         "ballots, tied positions where the rule allows them, unit/int/rational weights; score ballots within limits for "
